@@ -668,6 +668,33 @@ class CallMixin(object):
             facts = [z3.Implies(z3.Not(z3.Contains(z, a.z)), res == z)]
             return self.ok(st.assume(*facts), SV(STR, res))
         if name == 'format':
+            # constant template with plain positional fields ({} / {N}): concatenation of str() of the arguments
+            if z3.is_string_value(z) and not kw:
+                import string as _string
+                try:
+                    parts = list(_string.Formatter().parse(z.as_string()))
+                except ValueError:
+                    parts = None
+                if parts is not None and all((f is None) or ((f == '' or f.isdigit()) and not spec_ and conv is None)
+                                             for (_, f, spec_, conv) in parts):
+                    terms = []
+                    auto = 0
+                    ok_ = True
+                    for lit, f, spec_, conv in parts:
+                        if lit:
+                            terms.append(z3.StringVal(lit))
+                        if f is None:
+                            continue
+                        i = auto if f == '' else int(f)
+                        if f == '':
+                            auto += 1
+                        if i >= len(args) or args[i].ty not in (INT, STR, BOOL):
+                            ok_ = False
+                            break
+                        terms.append(self.to_str_term(st, args[i]))
+                    if ok_:
+                        res = terms[0] if len(terms) == 1 else (z3.Concat(*terms) if terms else z3.StringVal(''))
+                        return self.ok(st, SV(STR, res))
             return self.ok(st, SV(STR, z3.Const(fresh_name('format'), S)))
         if name == 'join':
             f = ufun('str_join', S, z3.ArraySort(z3.IntSort(), S), z3.IntSort(), S)
@@ -687,6 +714,12 @@ class CallMixin(object):
             return self.ok(st.assume(z3.Length(res) <= z3.Length(z)), SV(STR, res))
         if name == 'encode':
             f = ufun('str_encode', S, S)
+            if 'utf8-roundtrip' not in self.axioms_used:
+                # A-UTF8: decode(encode(s)) == s (str without lone surrogates)
+                self.axioms_used.add('utf8-roundtrip')
+                x = z3.String('ax_e')
+                d = ufun('u_bytes_decode', S, S)
+                self.global_axioms.append(FA([x], d(f(x)) == x, patterns=[f(x)]))
             return self.ok(st, SV(BYTES, f(z)))
         if name == 'find':
             return self.ok(st, SV(INT, z3.IndexOf(z, args[0].z, 0)))
